@@ -14,6 +14,7 @@ META = {
     "assumptions": ["garbage that contains the frame-start marker and frames with bad checksums are C10's subject"],
 }
 REQUIRED_ORACLES = ["delivery", "journal", "state-and-tap"]
+REQUIRED_COUNTERS = ["streams_ending_on_a_full_4096_byte_read", "cases_over_4096_bytes", "cases_with_garbage"]
 NSHARDS = 16
 
 
